@@ -116,6 +116,10 @@ impl<'a> Parser<'a> {
             if let Some(block) = Some(self.parse_block()?).filter(|b| !b.is_empty()) {
                 blocks.push(block);
             }
+            // an `else` that no `if` has claimed ends a block without being consumed
+            if self.current().map_or(false, |t| t.id == TokenType::Else) {
+                return Err(self.new_parse_error(ParseErrorCode::UnexpectedToken));
+            }
         }
         Ok(Program { code: blocks })
     }
